@@ -17,7 +17,7 @@ def mc_table(ctx, w, m, L, alpha="01234", tables=True, which="both"):
         vlib.kvh(["table", "kmermin", w, m, L, ctx.seed, alpha], out=t2)
         env["VIMPL"], env["VIMPLK"] = t1, t2
         cfg = "MCMinimiser"
-    r = vlib.tlc("MCMinimiser", cfg=cfg, env=env, rundir=ctx.rundir, coverage=True, timeout=3400)
+    r = vlib.tlc("MCMinimiser", cfg=cfg, env=env, rundir=ctx.rundir, coverage=True, timeout=3400, heap="24g")
     stage = "mc%s (w,m)=(%d,%d) L<=%d alpha=%s" % ("+tables" if tables else "", w, m, L, alpha)
     ctx.add_mc(stage, r)
     if tables:
